@@ -33,6 +33,7 @@ def dispatch (line : String) : String :=
     | "pic" :: rest => picCmd rest
     | "tfmt" :: rest => tfmtCmd rest
     | "size" :: rest => sizeCmd rest
+    | "proc" :: rest => procCmd rest
     | _ => none
   r.getD "bad-line"
 
